@@ -13,7 +13,8 @@ COMMON_ASSUMPTIONS = [
 HERM_BOUNDS = {
     "quick": "layouts {1|1,1|2,2|1,2|2,1|1|1,1|1|2}, N<=4; 1 parameter to order 3 (symbolic spectrum: order 3 for N<=3, 2 for N=4; "
     "block-degenerate symbolic spectrum order 3), 1st+2nd order terms with exact rational spectra to order 3, 2 parameters + mixed term "
-    "to total order 3 (N<=3); carrier A (real diagonal solver, numpy branch): dyadic spectra, fully_diagonalize tuples and symmetric masks on 2-3 dim blocks",
+    "to total order 3 (N<=3); carrier A (real diagonal solver, numpy branch): dyadic spectra, fully_diagonalize tuples and symmetric masks on 2-3 dim blocks; "
+    "carrier C: symbolic spectra + masks, sympy-expression input with mixed monomials (x, y, x*y / x**2*y; x, x**3)",
     "thorough": "all compositions of N<=5 into <=3 blocks plus 1|1|1|1; rational spectra to order 4 (N<=4) / 3 (N=5); symbolic spectra N<=4; "
     "2 parameters to total order 4, 3 parameters to total order 3 (N<=3); partly degenerate symbolic spectra; all listed masks on carrier A",
 }
@@ -37,7 +38,8 @@ REGISTRY = {
         technique="real block_diagonalize executed on z3-backed symbolic matrices (carriers A: numeric dyadic H0 + real diagonal solver incl. masks; "
         "B: documented solve_sylvester callback with symbolic/rational spectrum); own dense Cauchy triple product U^dagger H U from returned U, U^dagger and the input terms; "
         "z3 decides `exists inputs: lhs != rhs` per order for kept and eliminated positions; dtype-branch twin (concrete, declared): the same code on float64 / complex128 / mixed / int numpy inputs "
-        "at one dyadic point per configuration must reproduce the symbolic result evaluated there and leave the inputs unmodified",
+        "at one dyadic point per configuration must reproduce the symbolic result evaluated there and leave the inputs unmodified (also as unblocked matrices in units of 2^-44 and 2^30 with atol scaled alike); "
+        "carrier C (the library's sympy mode) also receives the Hamiltonian as one sympy matrix in the perturbative symbols (the library's Taylor expansion), read back at the point (2,3,5,7) of those symbols",
         bounds=HERM_BOUNDS,
         assumptions=COMMON_ASSUMPTIONS + ["sparse-valued perturbations and the scipy.sparse branch of the diagonal solver are outside (cannot hold symbolic payloads)"],
         timeout_s={"quick": 300, "thorough": 1500},
@@ -103,7 +105,7 @@ REGISTRY = {
         technique="2-safety (non-interference) query on the real block_diagonalize: Hamiltonian terms of order m<=n share variables x, all other terms get independent variables y / y'; "
         "z3 decides output_n(x,y) != output_n(x,y') for H_tilde, U, U_inv at every order n of the box; plus the concrete call log of a lazily defined Hamiltonian BlockSeries, "
         "exhaustive over output x block x order of the box: definition evaluates zeroth order only, a request at n evaluates only m<=n componentwise and nothing twice "
-        "(also whole request schedules; unblocked lazy series through subspace_indices / complete eigenvectors / implicit mode with the real sparse LU; H_0 with an exactly vanishing block)",
+        "(also whole request schedules; unblocked lazy series through subspace_indices / complete eigenvectors / implicit mode with the real sparse LU; H_0 with an exactly vanishing block; lazily defined series of second-quantised operator matrices)",
         bounds={
             "quick": "layouts {1|1,1|2,2|1,1|1|1}, both modes; 1 parameter: terms at orders 1..4, requests to order 3; 2 parameters: terms to total order 2, requests to total order 2; full-diag and mask variants on carrier A",
             "thorough": "adds 2|2 and 1|1|2, two parameters with terms to total order 3",
@@ -153,7 +155,7 @@ REGISTRY = {
         jobs=lambda tier, seed: __import__("vf.props.history", fromlist=["x"]).configs_c11(tier, seed),
         job_of_config=_job_of("vf.props.history", "c11"),
         level="fault_enumeration",
-        technique="exhaustive fault injection: every invocation index of the three user callbacks (Hamiltonian eval, solve_sylvester, element matmul) of a clean symbolic run x {Exception, RuntimeError, KeyboardInterrupt}; "
+        technique="exhaustive fault injection: every invocation index of the three user callbacks (Hamiltonian eval, solve_sylvester, element matmul) of a clean symbolic run x {Exception, RuntimeError, KeyboardInterrupt} (Hamiltonian as a blocked series or as a lazily defined series of nested block lists); "
         "asserted: exception reaches the caller with its type, no PENDING marker reachable from any cache, and every element requested afterwards is decided equal (z3 / syntactic identity) to the clean run; double faults",
         bounds={
             "quick": "1|1 to order 3, 1|2 and 1|1|1 to order 2 (terms at orders 1,2), both modes, 3 trigger requests x 2 follow-up schedules, plus double faults",
@@ -252,7 +254,8 @@ REGISTRY = {
         job_of_config=_job_of("vf.props.projector", "c17"),
         technique="the real ComplementProjector is built from SYMBOLIC complex R, L (object arrays of z3-backed scalars; L=R, independent L, and L^dagger R = 1 by parametrisation) and driven through its primitive methods and "
         "SciPy's LinearOperator algebra (matvec/matmat/rmatvec/rmatmat, left multiplication, .T/.H/conjugate chains, P A P composites and their adjoint/transpose/right-multiplication, sums, scalar multiples); "
-        "z3 decides result != dense (1 - R L^dagger) expression entrywise; idempotence under L^dagger R = 1; shape/dtype concretely",
+        "z3 decides result != dense (1 - R L^dagger) expression entrywise; idempotence under L^dagger R = 1; shape/dtype concretely; all obligations run on ONE projector object (cached derived operators), in three orders (listed, derived operators first, reversed), "
+        "and a counterexample is replayed after the same operations in the same order",
         bounds={"quick": "n<=3, k<=2, real and complex, chains of length <=2", "thorough": "n<=4, k<=2, chains of length <=3 (n<=3)"},
         assumptions=COMMON_ASSUMPTIONS[:1] + COMMON_ASSUMPTIONS[2:] + ["SciPy's LinearOperator composition classes are part of the code under test (they run on object arrays)", "sparse operands inside composites are numeric only and outside"],
         timeout_s={"quick": 300, "thorough": 900},
